@@ -324,8 +324,22 @@ def functor_call(ctx, t, j, rng):
     cand = t.pos + t.kwo + (['zz'] if sig['varkw'] else [])
     for n in rng.sample(cand, min(len(cand), rng.randint(1, 2))):
       # (a value equal to the current one is "no change" for rebind: left open)
-      rebinds.append((n, ('fresh', rng.randint(11, 19))[sig['typed']] if rng.random() < 0.3
-                      else rng.randint(11, 19), rng.choice(['rebind', 'setattr'])))
+      how = rng.choice(['rebind', 'setattr'])
+      dflt = t.defaults.get(n)
+      r = rng.random()
+      if n in t.defaults and r < 0.25:
+        # away and back: the argument ends up explicitly bound to a value equal
+        # to its default (both rebinds change the stored value).
+        rebinds.append((n, rng.randint(11, 19), how))
+        rebinds.append((n, dflt, rng.choice(['rebind', 'setattr'])))
+      elif (n in t.defaults and r < 0.4 and not sig['typed'] and type(dflt) is int
+            and not any(p[0] == n and p[3] for p in sig['pos'] + sig['kwonly'])):
+        # equal to the default but of another type (10.0 for 10): a change of
+        # the stored value that `==` does not see.
+        rebinds.append((n, float(dflt), how))
+      else:
+        rebinds.append((n, ('fresh', rng.randint(11, 19))[sig['typed']] if rng.random() < 0.3
+                        else rng.randint(11, 19), how))
   # *args given at both times is left open by the documentation.
   if sig['varargs'] and len(a1) > len(t.pos) and len(a2) > len(t.pos):
     a2 = a2[:len(t.pos)]
